@@ -188,7 +188,7 @@ CHECKS = [
           " Also: calls issued after the connection goroutine ended (closer, loss on a no-reconnect client) must fail, not block. Fourth round: a silent stall while a 48 MiB request is being written (proxy fault `stall`: silent and no longer reading; F34).",
   "design_ref": "DESIGN.md §6 C03",
   "note": TB + " PARTIAL: 'every call returns' = ownership + enabledness + scheduler fairness; observed with the clock-free oracle (a later probe round-tripped).",
-  "technique": "Lean 4 theorems (ownership invariant by induction over events) + regenerated skeleton facts + hook-trace inclusion + gated schedules"},
+  "technique": "Lean 4 theorems + translation theorems over the regenerated MiniGo programs (Sweep) (ownership invariant by induction over events) + regenerated skeleton facts + hook-trace inclusion + gated schedules"},
  {"property_id": "C04",
   "text": "Theorems: under every event list at most one request frame is written per attempt and its handler runs at most once; whenever "
           "the executor holds a genuine response for an attempt, that attempt was executed exactly once; a notification is never registered, "
@@ -207,7 +207,7 @@ CHECKS = [
           " Also: the closer fired while the redial goroutine is about to sleep, contexts cancelled at the moment of the close, a subscriber twelve thousand values behind at the close. Fourth round: close after 0/1/2 reconnects with a goroutine dump for keepalive goroutines (F38).",
   "design_ref": "DESIGN.md §6 C18",
   "note": TB + " PARTIAL: completion = safety form + fairness; observed with time-outs.",
-  "technique": "Lean 4 theorems (exit-path enabledness, post-exit invariant) + regenerated skeleton facts + hook-trace inclusion + gated closes"},
+  "technique": "Lean 4 theorems + translation theorems over the regenerated MiniGo programs (Sweep) (exit-path enabledness, post-exit invariant) + regenerated skeleton facts + hook-trace inclusion + gated closes"},
  {"property_id": "C06",
   "text": "Theorems over the server-role model (handler contexts derived from the connection context, the handling map, cancel frames, "
           "done(keepCtx), the sweep, connection end): executing xrpc.cancel [id] cancels exactly the handler registered under id and changes "
@@ -233,7 +233,7 @@ CHECKS = [
           " Also: raw-peer scenarios (a writer stalled on a peer that does not read, then FIN or server-side cancel; a partial frame when the server cancels; a reverse call whose write fails). Fourth round: one keepalive ping from the peer while the response writer is stalled, then close frame / server-side cancel (F37).",
   "design_ref": "DESIGN.md §6 C15",
   "note": TB + " The goroutine model is tied by skeleton facts and profile observation, not by trace replay.",
-  "technique": "Lean 4 theorems (context derivation, ranking function + progress over the goroutine model) + regenerated skeleton facts + goroutine-profile observation + hook-trace inclusion"},
+  "technique": "Lean 4 theorems + translation theorems over the regenerated MiniGo programs (Sweep) (context derivation, ranking function + progress over the goroutine model) + regenerated skeleton facts + goroutine-profile observation + hook-trace inclusion"},
  {"property_id": "C16",
   "text": "Theorems over a family of Jrpc.Corr endpoints (one per connection): the reverse client found in a handler's context names the "
           "endpoint of the connection being served and every event of a reverse call is an event of that endpoint (affinity); in any run of "
